@@ -56,6 +56,22 @@ CheckGood(r) ==
                  /\ Report(LineLabels(r.lines[j]) = LineLabels(r.lines[1]), r.id, "C15", "label-order-varies")
   /\ PrintT(<<"INFO", l, r.id, r.lib, Len(secs), Len(r.lines)>>)
 
+\* --counter nai: per statement (declaration order) counter-models : models stand in the ratio falsifying : satisfying assignments
+CheckCounter(r) ==
+  LET n == r.n
+      tt == TTs(r.asts, n)
+      f9 == r.opchars /\ r.lib # "naive"
+  IN
+  /\ Report(r.exit = 0, r.id, "C15", IF f9 THEN "exit-nonzero-opchar-label" ELSE "exit-nonzero")
+  /\ r.exit = 0 =>
+       /\ Report(Len(r.counts) = n, r.id, "C13", "cli-counter-one-entry-per-statement")
+       /\ Len(r.counts) = n =>
+            \A i \in 1..n :
+              LET sat == Cardinality(tt[i])  fal == Cardinality(Assign(n)) - sat IN
+              Report(r.counts[i][1] >= 0 /\ r.counts[i][2] >= 0 /\ r.counts[i][1] + r.counts[i][2] > 0
+                     /\ r.counts[i][1] * sat = r.counts[i][2] * fal, r.id, "C13", <<"cli-counter-ratio", i>>)
+  /\ PrintT(<<"INFO", l, r.id, "counter", 0, 0>>)
+
 \* malformed: outside even the lenient grammar, or grammatical but semantically bad (undeclared statement)
 RECURSIVE AtomsOfAll(_, _)
 AtomsOfAll(acs, i) == IF i > Len(acs) THEN {} ELSE AtomsOf(acs[i][3]) \cup {acs[i][2]} \cup AtomsOfAll(acs, i + 1)
@@ -99,6 +115,7 @@ Init2 == l = 1
 Next2 == /\ l <= Len(Rec)
          /\ (CASE Rec[l].kind = "cli" -> CheckGood(Rec[l])
                [] Rec[l].kind = "cli_bad" -> CheckBad(Rec[l])
+               [] Rec[l].kind = "cli_counter" -> CheckCounter(Rec[l])
                [] Rec[l].kind = "cli_persist" -> CheckPersist(Rec[l])
                [] Rec[l].kind = "cli_fs" -> CheckFs(Rec[l])) \in BOOLEAN
          /\ l' = l + 1
